@@ -23,7 +23,8 @@ func init() {
 			"D2c GetIndex returns i+1 for the first match at zero-based i and 0 otherwise, ContainsValue/Any/All test it against 0 the right way round; " +
 			"D3 every loop of the array and list types is in a terminating loop-progress form; " +
 			"D4 every list mutator commits its new storage as its last effect (a panicking call leaves the list unchanged), array writes are dominated by their normaliser calls; " +
-			"D5 no internal caller passes a definitely-zero ordinal.",
+			"D5 no internal caller passes a definitely-zero ordinal." +
+			" Also: receiver-aliased operands are read before anything of the receiver changes; in the array no bounds check is reachable after a write; the list's backing array is made by the constructor, never adopted from an argument; reversal swaps mirror positions exactly while the lower one is below the upper one.",
 		NotDecided: "that the rebuild loops place every element at the right position (loop-carried arithmetic), range semantics beyond the two normaliser calls, equality semantics of GetIndex (C08), sort/reverse (C09).",
 		Run:        runC01,
 	})
